@@ -30,8 +30,10 @@ def fill_env(byte, leaks=True):
     return e
 
 
-FILLS_QUICK = [0x00, 0x06, 0x07, 0x0c, 0xff]
-FILLS_ALL = [0x00, 0xbe, 0x06, 0x07, 0x0c, 0x20, 0x22, 0x5c, 0xff]
+# 0x06/0x07/0x0c: node type tags (object / array / owned string); 0x20 blank, 0x22 quote, 0x5c backslash, 0x5d ']', 0x7d '}':
+# bytes that change what the scanner does if it ever consumes an unwritten byte of the padded input copy
+FILLS_QUICK = [0x00, 0x06, 0x07, 0x0c, 0x20, 0x22, 0x5d, 0x7d, 0xff]
+FILLS_ALL = [0x00, 0xbe, 0x06, 0x07, 0x0c, 0x20, 0x22, 0x5c, 0x5d, 0x7d, 0x2c, 0x3a, 0x31, 0xff]
 
 PROPS = {}
 PROPS["_libs"] = {"number_harness.cpp": "-lgmp", "toa_harness.cpp": "-lgmp"}
@@ -47,9 +49,10 @@ PROPS["C01"] = dict(
     runs=[
         dict(name="asan-hsw", src="parse_harness.cpp", cfg="asan-hsw", args=["--prop", "C01"], env=ASAN_ENV),
         dict(name="prod-wsm", src="parse_harness.cpp", cfg="prod-wsm", args=["--prop", "C01"], env={}, tiers=("thorough",)),
+        dict(name="asanub-hsw", src="parse_harness.cpp", cfg="asanub-hsw", args=["--prop", "C01"], env=ASAN_ENV, tiers=("thorough",)),
     ],
     require=["accepted", "reject:structural", "reject:infinity", "reject:string-fault", "bytes_le2", "all_prefixes",
-             "every_pos_x_palette"],
+             "every_pos_x_palette", "oracle-selftest:accepted-by-all", "oracle-selftest:rejected-by-all"],
     assumptions=["reference recogniser (harness/common/jmodel.h) implements RFC 8259 and the property's string/number rules; "
                  "it is cross-checked against RapidJSON/nlohmann/strtod by the oracle self-test",
                  "glibc strtod is correctly rounded (decides overflow)"],
@@ -93,14 +96,15 @@ PROPS["C03"] = dict(
     title="A successful Parse yields exactly the value the text denotes",
     rule=("generated valid texts (all kinds, depth<=5, duplicate keys in every 5th document, whitespace runs up to 200 bytes, "
           "random escapes/number spellings) x leading pad 0..63, container sizes around copy-unroll edges with every kind as "
-          "last child, whitespace run 0..200 at every grammar position, nesting to depth 700 (thorough 1400); the document is "
+          "last child, whitespace run 0..200 at every grammar position, every 16-bit \\uXXXX escape (surrogates as valid pairs) in values and keys, "
+          "nesting to depth 700 (thorough 1400); the document is "
           "read back through the accessor API only and compared (ordered, duplicates kept, number kind+bits) with the reference "
           "parser's value; distinct = hash of the text"),
     runs=[
         dict(name="asan-hsw", src="parse_harness.cpp", cfg="asan-hsw", args=["--prop", "C03"], env=ASAN_ENV),
         dict(name="prod-hsw", src="parse_harness.cpp", cfg="prod-hsw", args=["--prop", "C03"], env={}),
     ],
-    require=["accepted", "valid_doc_x_pad", "sizes_and_last_child", "long_whitespace", "deep"],
+    require=["accepted", "valid_doc_x_pad", "sizes_and_last_child", "long_whitespace", "deep", "every_u16_escape"],
     assumptions=["reference parser value construction (strtod for non-integers, exact decimal comparison for integer kinds)"],
 )
 
@@ -259,6 +263,7 @@ PROPS["C11"] = dict(
         dict(name="prod-hsw", src="ondemand_harness.cpp", cfg="prod-hsw", env={}, args=["--prop", "C11"]),
         dict(name="prod-wsm", src="ondemand_harness.cpp", cfg="prod-wsm", env={}, args=["--prop", "C11"]),
         dict(name="prod-dyn", src="ondemand_harness.cpp", cfg="prod-dyn", env={}, args=["--prop", "C11"]),
+        dict(name="asanub-hsw", src="ondemand_harness.cpp", cfg="asanub-hsw", env=ASAN_NOLEAK_ENV, args=["--prop", "C11"], tiers=("thorough",)),
     ],
     require=["on-demand-calls-on-arbitrary-bytes", "result:success", "result:error", "placement:ends-on-last-mapped-byte",
              "placement:starts-after-unmapped-page", "placement:exact-heap-block", "UpdateLazy-calls", "ParseSchema-undeclared-skip-calls",
@@ -303,6 +308,7 @@ PROPS["C12"] = dict(
     runs=[
         dict(name="asan-hsw", src="mutation_harness.cpp", cfg="asan-hsw", env=ASAN_NOLEAK_ENV, args=["--prop", "C12"]),
         dict(name="asan-dyn", src="mutation_harness.cpp", cfg="asan-dyn", env=ASAN_NOLEAK_ENV, args=["--prop", "C12"]),
+        dict(name="asanub-hsw", src="mutation_harness.cpp", cfg="asanub-hsw", env=ASAN_NOLEAK_ENV, args=["--prop", "C12"], tiers=("thorough",)),
     ],
     require=["operations-checked", "op:CreateMap", "op:DestroyMap", "op:RemoveMember(tail)-while-map-exists", "op:erase-full-or-empty-range",
              "op:growth-from-capacity-0", "op:move-assign-from-own-subnode", "op:Swap-with-own-subnode", "op:CopyFrom",
